@@ -24,6 +24,14 @@ Operation kinds and who judges them (`judge` argument = set of kinds to compare)
                                           values encode equally within the session; the decoded
                                           tensor is not modified (C06)
   retained  every object still equals the text taken when it was created (C05)
+  new       from_config(cfg) holds the configured reserves                 (always judged)
+  inv       the successor of an accepted move satisfies the physical-consistency invariant of the
+            configuration its game started from                            (C04)
+  variants  symmetries(p): the position first, each distinct image once    (C15)
+  copy      pickle round trip / deepcopy of a position: an equal value (==), and everything asked of
+            the copy later is judged like anything else
+Returned containers are the caller's: the lists handed out by all_moves() and symmetries() are
+scrambled after they were read.  Moves are sometimes derived from other moves with attrs.evolve.
 Lineage: every object records which kinds of operation produced it or an ancestor, so that a
 property can also judge e.g. `winner` on objects that descend from a transformation.
 """
@@ -35,7 +43,7 @@ import sys
 
 from . import driver, env, gen, ser
 
-KINDS = ("move", "winner", "allmoves", "format", "parse", "tpos", "encode", "retained")
+KINDS = ("move", "winner", "allmoves", "format", "parse", "tpos", "encode", "retained", "new", "inv", "variants", "copy")
 
 
 def _hex(s):
@@ -66,7 +74,7 @@ def plan(seed, n_ops, sizes=(3, 4, 5, 6, 7, 8), with_tokens=True):
             do({"op": "lit", "pos": ser.pos_str(p)})
         for ps in _road_rich(rng, size, 8):
             do({"op": "lit", "pos": ps})
-    weights = [("move", 46), ("winner", 14), ("allmoves", 4), ("format", 10), ("parse", 3), ("tpos", 6), ("encode", 6 if with_tokens else 0)]
+    weights = [("move", 46), ("winner", 14), ("allmoves", 4), ("format", 10), ("parse", 3), ("tpos", 6), ("encode", 6 if with_tokens else 0), ("variants", 2), ("copy", 3)]
     kinds = [k for k, w in weights for _ in range(w)]
     while len(ops) < n_ops:
         live = ex.live()
@@ -78,7 +86,7 @@ def plan(seed, n_ops, sizes=(3, 4, 5, 6, 7, 8), with_tokens=True):
         if rng.random() < 0.06:
             # a chain on freshly derived objects: derive (transform / TPS round trip / token round
             # trip / nothing), play one to three moves, then ask everything about the result
-            how = rng.choice(["tpos", "tpos", "parse", "encode" if with_tokens else "tpos", "none"])
+            how = rng.choice(["tpos", "tpos", "parse", "encode" if with_tokens else "tpos", "none", "copy"])
             cur = slot
             if how == "tpos":
                 do({"op": "tpos", "obj": cur, "k": rng.randrange(1, 8)})
@@ -89,6 +97,9 @@ def plan(seed, n_ops, sizes=(3, 4, 5, 6, 7, 8), with_tokens=True):
                 cur = ex.out[-1]["slot"]
             elif how == "encode":
                 do({"op": "encode", "obj": cur, "again": False})
+                cur = ex.out[-1]["slot"]
+            elif how == "copy":
+                do({"op": "copy", "obj": cur, "how": rng.choice(["pickle", "deepcopy"])})
                 cur = ex.out[-1]["slot"]
             if ex.objs[cur] is None:
                 continue
@@ -113,6 +124,8 @@ def plan(seed, n_ops, sizes=(3, 4, 5, 6, 7, 8), with_tokens=True):
                 do({"op": "winner", "obj": cur})
             do({"op": "format", "obj": cur})
             do({"op": "allmoves", "obj": cur})
+            do({"op": "parse", "obj": cur})
+            do({"op": "variants", "obj": cur})
             continue
         k = rng.choice(kinds)
         if k == "move":
@@ -130,7 +143,15 @@ def plan(seed, n_ops, sizes=(3, 4, 5, 6, 7, 8), with_tokens=True):
                     m = rng.choice(_wf(obj.size))
                 else:
                     m = gen.illformed_moves(rng, obj.size, 1, obj)[0]
-            do({"op": "move", "obj": slot, "move": ser.move_str(m)})
+            op = {"op": "move", "obj": slot, "move": ser.move_str(m)}
+            if m.slides and rng.random() < 0.15:
+                # the same move, derived from another slide with attrs.evolve (as callers that
+                # enumerate variations of a move do) instead of built by the constructor
+                other = tuple(rng.choice(_SLIDE_TEMPLATES))
+                op["evolved_from"] = ",".join(str(d) for d in other)
+            do(op)
+        elif k == "copy":
+            do({"op": "copy", "obj": slot, "how": rng.choice(["pickle", "deepcopy"])})
         elif k == "tpos":
             do({"op": "tpos", "obj": slot, "k": rng.randrange(8)})
         elif k == "encode":
@@ -140,6 +161,7 @@ def plan(seed, n_ops, sizes=(3, 4, 5, 6, 7, 8), with_tokens=True):
     return ops
 
 
+_SLIDE_TEMPLATES = [(1,), (2,), (3,), (1, 1), (2, 1), (1, 2), (4,), (1, 1, 1)]
 _WF = {}
 
 
@@ -186,6 +208,7 @@ class Executor:
         self.objs = []  # slot -> object or None
         self.texts = []  # slot -> text at creation or None
         self.lineage = []  # slot -> frozenset of kinds
+        self.cfgs = []  # slot -> "n pieces caps" of the configuration its game started from, or None
         self.out = []  # per op: dict
         self._live = []
         self._sym = None
@@ -194,7 +217,8 @@ class Executor:
     def live(self):
         return self._live
 
-    def _slot(self, obj, lineage):
+    def _slot(self, obj, lineage, cfg=None):
+        self.cfgs.append(cfg if obj is not None else None)
         if obj is None:
             self.objs.append(None)
             self.texts.append(None)
@@ -225,24 +249,29 @@ class Executor:
         k = op["op"]
         rec = {"op": k}
         if k in ("new", "lit"):
+            cfgt = None
             try:
                 if k == "new":
                     n, pc, cp = op["cfg"]
                     cfg = tak.Config(size=n) if pc is None else tak.Config(size=n, pieces=pc, capstones=cp)
                     obj = tak.Position.from_config(cfg)
+                    rec["cfg"] = list(op["cfg"])
+                    rec["impl"] = ser.pos_str(obj)
+                    if pc is not None:
+                        cfgt = "%d %d %d" % (n, pc, cp)
                 else:
                     obj = ser.parse_pos(op["pos"].split(" "))
             except Exception as e:
                 obj = None
                 rec["impl"] = "crash " + type(e).__name__
-            rec["slot"] = self._slot(obj, [])
+            rec["slot"] = self._slot(obj, [], cfgt)
             self.out.append(rec)
             return rec
         i = op["obj"]
         obj = self.objs[i] if 0 <= i < len(self.objs) else None
         if obj is None:
             rec["skipped"] = True
-            if k in ("move", "tpos", "parse", "encode"):
+            if k in ("move", "tpos", "parse", "encode", "copy"):
                 rec["slot"] = self._slot(None, [])
             self.out.append(rec)
             return rec
@@ -250,9 +279,16 @@ class Executor:
         rec["in"] = self.texts[i]
         lin = self.lineage[i]
         rec["lineage"] = sorted(lin)
+        cfg_here = self.cfgs[i]
         if k == "move":
             m = ser.parse_move(op["move"].split(" "))
             rec["move"] = op["move"]
+            if op.get("evolved_from"):
+                import attrs
+
+                tmpl = tak.Move(m.x, m.y, m.type, tuple(int(d) for d in op["evolved_from"].split(",")))
+                m = attrs.evolve(tmpl, slides=m.slides)
+                rec["evolved_from"] = op["evolved_from"]
             q = None
             try:
                 q = obj.move(m)
@@ -262,7 +298,34 @@ class Executor:
             except Exception as e:
                 rec["impl"] = "crash " + type(e).__name__
                 q = None
-            rec["slot"] = self._slot(q if rec["impl"].startswith("ok ") else None, lin | {"move"})
+            rec["slot"] = self._slot(q if rec["impl"].startswith("ok ") else None, lin | {"move"}, cfg_here)
+            rec["cfg_text"] = cfg_here
+        elif k == "copy":
+            import copy as _copy
+            import pickle
+
+            q = None
+            try:
+                q = pickle.loads(pickle.dumps(obj)) if op.get("how") == "pickle" else _copy.deepcopy(obj)
+                rec["impl"] = "ok " + ser.pos_str(q)
+                rec["eq"] = bool(q == obj) and bool(obj == q)
+                rec["eq_rebuilt"] = bool(q == ser.parse_pos(self.texts[i].split(" ")))
+            except Exception as e:
+                rec["impl"] = "crash " + type(e).__name__
+                q = None
+            rec["slot"] = self._slot(q, lin | {"copy"}, cfg_here)
+        elif k == "variants":
+            S = self._symmetry()
+            try:
+                out = S.symmetries(obj)
+                rec["impl"] = " ".join(",".join(str(int(v)) for row in s_ for v in row) + " " + ser.pos_str(p_) for s_, p_ in out)
+                rec["n"] = len(out)
+                # the list is the caller's now
+                if isinstance(out, list) and out:
+                    out.reverse()
+                    del out[0]
+            except Exception as e:
+                rec["impl"] = "crash " + type(e).__name__
         elif k == "winner":
             try:
                 w = obj.winner()
@@ -276,7 +339,11 @@ class Executor:
             rec["impl"] = a + " " + b
         elif k == "allmoves":
             try:
-                rec["impl"] = sorted(ser.move_str(m) for m in obj.all_moves())
+                lst = obj.all_moves()
+                rec["impl"] = sorted(ser.move_str(m) for m in lst)
+                if isinstance(lst, list) and lst:  # the list is the caller's now
+                    lst.reverse()
+                    del lst[::2]
             except Exception as e:
                 rec["impl"] = "crash " + type(e).__name__
         elif k == "format":
@@ -292,12 +359,13 @@ class Executor:
                 try:
                     q = self.ptn.parse_tps(t)
                     rec["impl"] = "ok " + ser.pos_str(q)
+                    rec["eq"] = bool(q == obj)
                 except self.ptn.IllegalTPS:
                     rec["impl"] = "illegal"
             except Exception as e:
                 rec["impl"] = "crash " + type(e).__name__
                 q = None
-            rec["slot"] = self._slot(q if rec.get("impl", "").startswith("ok ") else None, lin | {"parse"})
+            rec["slot"] = self._slot(q if rec.get("impl", "").startswith("ok ") else None, lin | {"parse"}, None)  # TPS does not carry the reserves of a custom configuration
         elif k == "tpos":
             S = self._symmetry()
             q = None
@@ -309,7 +377,7 @@ class Executor:
             except Exception as e:
                 rec["impl"] = "crash " + type(e).__name__
                 q = None
-            rec["slot"] = self._slot(q if rec["impl"].startswith("ok ") else None, lin | {"tpos"})
+            rec["slot"] = self._slot(q if rec["impl"].startswith("ok ") else None, lin | {"tpos"}, cfg_here)
         elif k == "encode":
             E = self._encoding()
             q = None
@@ -337,7 +405,7 @@ class Executor:
                 except Exception as e:
                     rec["impl"] = "crash " + type(e).__name__
                     q = None
-            rec["slot"] = self._slot(q if rec.get("impl", "").startswith("ok ") else None, lin | {"encode"})
+            rec["slot"] = self._slot(q if rec.get("impl", "").startswith("ok ") else None, lin | {"encode"}, cfg_here)
         self.out.append(rec)
         return rec
 
@@ -397,8 +465,12 @@ def judge(out, retained_bad, kinds, lineage_kinds=()):
     lines, refs = [], []
 
     def want(rec):
+        if rec["op"] == "new":
+            return "cfg" in rec
         if rec.get("skipped") or "in" not in rec:
             return False
+        if rec["op"] == "move" and "inv" in kinds:
+            return True
         return rec["op"] in kinds or bool(lineage_kinds & set(rec.get("lineage", ())))
 
     seen_enc = {}
@@ -407,9 +479,35 @@ def judge(out, retained_bad, kinds, lineage_kinds=()):
         if not want(rec):
             continue
         k = rec["op"]
+        if k == "new":
+            n, pc, cp = rec["cfg"]
+            if pc is None:
+                lines.append("move defaults %d" % n)
+                refs.append((idx, "new-default"))
+            else:
+                lines.append("move fromconfig %d %d %d" % (n, pc, cp))
+                refs.append((idx, "new"))
+            continue
         if k == "move":
-            lines.append("move apply %s %s" % (rec["in"], rec["move"]))
-            refs.append((idx, "move"))
+            if "move" in kinds or lineage_kinds & set(rec.get("lineage", ())):
+                lines.append("move apply %s %s" % (rec["in"], rec["move"]))
+                refs.append((idx, "move"))
+            if "inv" in kinds and rec.get("cfg_text") and str(rec.get("impl", "")).startswith("ok "):
+                lines.append("move inv %s %s" % (rec["cfg_text"], rec["impl"][3:]))
+                refs.append((idx, "inv"))
+        elif k == "copy":
+            imp = rec.get("impl", "")
+            if imp != "ok " + rec["in"]:
+                fails.append({"index": idx, "kind": "copy", "what": "a %s of position [%s] reads [%s]" % ("copy", rec["in"], imp)})
+            elif not rec.get("eq") or not rec.get("eq_rebuilt"):
+                fails.append({"index": idx, "kind": "copy", "what": "a pickled / deep-copied position [%s] has the same content but does not compare equal (== %s; == a position rebuilt from the same content: %s)" % (rec["in"], rec.get("eq"), rec.get("eq_rebuilt"))})
+        elif k == "variants":
+            imp = rec.get("impl", "")
+            if imp.startswith("crash"):
+                fails.append({"index": idx, "kind": "variants", "what": "symmetries([%s]) raised %s" % (rec["in"], imp)})
+            else:
+                lines.append("symmetry checkvariants %s %s" % (rec["in"], imp))
+                refs.append((idx, "variants"))
         elif k == "winner":
             lines.append("winner specboth " + rec["in"])
             refs.append((idx, "winner"))
@@ -452,7 +550,18 @@ def judge(out, retained_bad, kinds, lineage_kinds=()):
     for (idx, what), ans in zip(refs, answers):
         rec = out[idx]
         imp = rec.get("impl")
-        if what == "move":
+        if what == "new":
+            if imp != ans:
+                fails.append({"index": idx, "kind": "new", "what": "Position.from_config(Config(size=%s, pieces=%s, capstones=%s)) is [%s]; the configured start position is [%s]" % (rec["cfg"][0], rec["cfg"][1], rec["cfg"][2], imp, ans)})
+        elif what == "new-default":
+            pass
+        elif what == "inv":
+            if ans != "true":
+                fails.append({"index": idx, "kind": "inv", "what": "configuration [%s]: the accepted move [%s] on [%s] gives [%s], which violates %s" % (rec["cfg_text"], rec["move"], rec["in"], imp[3:], ans)})
+        elif what == "variants":
+            if ans != "true":
+                fails.append({"index": idx, "kind": "variants", "what": "symmetries([%s]) = %d entries [%s…]: not (position itself first, no duplicates, all eight images)" % (rec["in"], rec.get("n", -1), imp[:300])})
+        elif what == "move":
             if imp != ans:
                 fails.append({"index": idx, "kind": "move", "what": "position [%s] move [%s]: implementation gives [%s], the rules give [%s]" % (rec["in"], rec["move"], imp, ans)})
         elif what == "winner":
@@ -478,6 +587,8 @@ def judge(out, retained_bad, kinds, lineage_kinds=()):
         elif what == "parse":
             if imp != ans:
                 fails.append({"index": idx, "kind": "parse", "what": "parse_tps(%r) gives [%s], the grammar's reading is [%s]" % (_unhex(rec["text"]), imp, ans)})
+            elif imp == "ok " + rec["in"] and rec.get("eq") is False:
+                fails.append({"index": idx, "kind": "parse", "what": "parse_tps(format_tps(p)) has the content of p = [%s] but does not compare equal to it (==)%s" % (rec["in"], " [p descends from a pickled / deep-copied position]" if "copy" in rec.get("lineage", ()) else "")})
         elif what == "tpos":
             if imp != ans:
                 fails.append({"index": idx, "kind": "tpos", "what": "transform_position(%s, [%s]) gives [%s], expected [%s]" % (rec["matrix"], rec["in"], imp, ans)})
@@ -530,7 +641,7 @@ def _deps_closed(ops, keep):
     new_ops = []
     old_slot = new_slot = 0
     for i, op in enumerate(ops):
-        creates = op["op"] in ("new", "lit", "move", "tpos", "parse", "encode")
+        creates = op["op"] in ("new", "lit", "move", "tpos", "parse", "encode", "copy")
         uses = op.get("obj")
         ok = keep[i] and (uses is None or uses in slot_of)
         if ok:
